@@ -7,6 +7,7 @@ package main
 //   resume              a resumed subscriber is told the session is present
 //   resend_order        what is retransmitted on resume (PUBLISH flagged dup, PUBREL) comes in the order of the original transmission
 //                       and includes everything the subscriber had left unacknowledged
+//                       (also with the packet id counter wrapping between them: ids 65534 65535 1 2)
 //   resend_first        … and before anything new; nothing is dequeued before Restore returned (gate; log_restore_first on the log)
 //   publisher_resume    a publisher cut with unacknowledged QoS 1 / QoS 2 publishes resumes and retransmits: order kept, QoS 2 once
 //   order_e2e           the same order at the application callbacks of real client.Client subscribers fed by real client.Service publishers
@@ -49,6 +50,7 @@ func runC15(c *hx.Ctx) {
 	for _, w := range []int{2, 3, 4} {
 		resumeOrder(o, c, w)
 	}
+	wrapResend(o, c)
 	publisherResume(o, c)
 	endToEnd(o, c)
 	backPressure(o, c, false)
@@ -510,4 +512,50 @@ func endToEnd(o *out, c *hx.Ctx) {
 	for _, cl := range clients {
 		_ = cl.Disconnect(long)
 	}
+}
+
+// wrapResend: the subscriber's packet id counter wraps (65535 -> 1) while deliveries on both sides of the wrap are
+// unacknowledged; on resume they are retransmitted in the order of their original transmission, not in the order of their ids
+func wrapResend(o *out, c *hx.Ctx) {
+	sc := o.begin(c, "c15 resume with unacknowledged deliveries on both sides of the packet id wrap", 1000, 2000)
+	defer sc.end()
+	// 65533 deliveries have to be got out of the way first: wide windows and a short flush delay make that a matter of seconds
+	sc.s.backend.ClientParallelPublishes = 1000
+	sc.s.engine.MaxWriteDelay = time.Millisecond
+	sub := sc.dial("wsub", true)
+	feeder := sc.dial("feed", true)
+	if sub.connect("wr", false, nil) == nil || !sub.subscribe(1, "w", 1) || feeder.connect("feed", true, nil) == nil {
+		sc.direct("resend_order", false, "could not connect")
+		return
+	}
+	// drop what the reader keeps: 65533 deliveries are only counted
+	const pre = 65533
+	for i := 0; i < pre; i++ {
+		waitFor(3*long, func() bool { return i-ackCount(feeder) < 500 })
+		feeder.send(&packet.Publish{ID: packet.ID(1 + i%60000), Message: packet.Message{Topic: "w", Payload: []byte("x"), QOS: 1}})
+	}
+	okPre := waitFor(3*long, func() bool { return sub.pubCount() >= pre && ackCount(feeder) >= pre })
+	sub.setHold(4)
+	for i := 0; i < 4; i++ {
+		feeder.send(&packet.Publish{ID: packet.ID(61000 + i), Message: packet.Message{Topic: "w", Payload: payload(9, 1, i), QOS: 1}})
+	}
+	waitFor(long, func() bool { return sub.heldCount() >= 4 })
+	var want []int
+	sub.mu.Lock()
+	for _, p := range sub.held {
+		want = append(want, int(p.ID))
+	}
+	sub.mu.Unlock()
+	sub.close()
+	sub.isClosed(long)
+	np := sc.dial("wsub2", false)
+	np.connect("wr", false, nil)
+	waitFor(long, func() bool { return np.pubCount() >= 4 })
+	var got []int
+	for _, p := range np.received() {
+		if p.Dup {
+			got = append(got, int(p.ID))
+		}
+	}
+	sc.direct("resend_order", okPre && len(want) == 4 && fmt.Sprint(got) == fmt.Sprint(want), fmt.Sprintf("%d deliveries acknowledged first=%v; left unacknowledged, in transmission order: ids %v; retransmitted: ids %v", pre, okPre, want, got))
 }
